@@ -4,6 +4,7 @@ import (
 	"encoding"
 	stderrors "errors"
 	"fmt"
+	"math"
 	"net"
 	"net/url"
 	"reflect"
@@ -77,6 +78,54 @@ func StringToDataSizeHook(f reflect.Type, t reflect.Type, data interface{}) (int
 	var size datasize.ByteSize
 	err := size.UnmarshalText([]byte(data.(string)))
 	return size, err
+}
+
+// IntegerHook rejects numbers that an integer field can't hold. Without it the decoder
+// silently cuts off the fractional part (2.9 becomes 2) and wraps values that are out of the field's range.
+func IntegerHook(f reflect.Type, t reflect.Type, data interface{}) (interface{}, error) {
+	var signed bool
+	switch t.Kind() {
+	case reflect.Int, reflect.Int8, reflect.Int16, reflect.Int32, reflect.Int64:
+		signed = true
+	case reflect.Uint, reflect.Uint8, reflect.Uint16, reflect.Uint32, reflect.Uint64:
+	default:
+		return data, nil
+	}
+	var (
+		zero     = reflect.Zero(t)
+		val      = reflect.ValueOf(data)
+		overflow bool
+	)
+	switch f.Kind() {
+	case reflect.Float32, reflect.Float64:
+		fl := val.Float()
+		if fl != math.Trunc(fl) {
+			return nil, errors.Errorf("%v is not an integer, but type %s expected", data, t)
+		}
+		if signed {
+			overflow = fl < -(1<<63) || fl >= 1<<63 || zero.OverflowInt(int64(fl))
+		} else if fl >= 0 { // Negative values are rejected by the decoder itself.
+			overflow = fl >= 1<<64 || zero.OverflowUint(uint64(fl))
+		}
+	case reflect.Int, reflect.Int8, reflect.Int16, reflect.Int32, reflect.Int64:
+		i := val.Int()
+		if signed {
+			overflow = zero.OverflowInt(i)
+		} else if i >= 0 {
+			overflow = zero.OverflowUint(uint64(i))
+		}
+	case reflect.Uint, reflect.Uint8, reflect.Uint16, reflect.Uint32, reflect.Uint64:
+		u := val.Uint()
+		if signed {
+			overflow = u > math.MaxInt64 || zero.OverflowInt(int64(u))
+		} else {
+			overflow = zero.OverflowUint(u)
+		}
+	}
+	if overflow {
+		return nil, errors.Errorf("%v overflows %s", data, t)
+	}
+	return data, nil
 }
 
 var textUnmarshallerType = func() reflect.Type {
